@@ -540,3 +540,8 @@ func cmdSmfRerun(args []string) {
 }
 
 var _ = smf.New
+
+func init() {
+	register("smf-gen", cmdSmfGen)
+	register("smf-rerun", cmdSmfRerun)
+}
